@@ -135,7 +135,7 @@ def check(ctx):
                          replay={"cell": sc2["name"], "lattice": np.asarray(sc2["lattice"]).tolist(), "positions": np.asarray(sc2["positions"]).tolist(), "i": int(i), "j": int(j)}, has_input=True)
 
     # ---- API level: zeros outside, monotone, large cutoff = none, dictionaries
-    api_cells = [("tri1", (2, 1, 1)), ("tri2_P1", (2, 1, 1)), ("hcp", (1, 1, 1)), ("tri1", (3, 1, 1)), ("tri2_obtuse", (2, 1, 1))]
+    api_cells = [("tri1", (2, 1, 1)), ("tri2_P1", (2, 1, 1)), ("hcp", (1, 1, 1)), ("tri1", (3, 1, 1)), ("tri2_obtuse", (2, 1, 1)), ("sheared", (2, 1, 1)), ("mono_P", (2, 1, 1))]
     if not ctx.quick:
         api_cells += [("mono_P", (2, 1, 1)), ("tri1", (2, 2, 1)), ("sheared", (2, 1, 1)), ("needle", (1, 1, 2)), ("ortho_C", (1, 1, 2)), ("flat", (1, 1, 1))]
     for cname, diag in api_cells:
@@ -152,6 +152,8 @@ def check(ctx):
         for a_, b_ in gaps:
             if b_ - a_ > 1e-2:
                 bounds += [b_ - 1e-3, a_ + 1e-3]
+        # radii shared by all cells (two structures with the same atom count then meet the same numeric cutoff)
+        bounds += [c for c in (3.05, 3.45, 4.05) if all(abs(c - sh) > 2e-2 for sh in shells)]
         bounds = sorted(set(bounds))
         for order in (2, 3, 4):
             if N ** order * 3 ** order > 300000:
@@ -178,6 +180,24 @@ def check(ctx):
                     mx = float(np.abs(T[:, far]).max()) if far.any() else 0.0
                     if mx != 0.0:
                         ctx.fail("oracle", f"C07/oracle/nonzero-outside/order{order}", f"{sc['name']} order {order} cutoff {cut:.4f}: an element with a pair beyond the cutoff is {mx:.2e}, not exactly zero", replay=rep, has_input=True)
+                # exactness: the space with cutoff = {v in the no-cutoff space : v vanishes on the out-of-range elements}
+                far_flat = np.repeat(far.reshape(-1), 3 ** order) if nb else None
+                if far_flat is None:
+                    far = np.zeros((N,) * order, dtype=bool)
+                    for tpl in itertools.product(range(N), repeat=order):
+                        if any(dist[a, c] >= cut for a in tpl for c in tpl):
+                            far[tpl] = True
+                    far_flat = np.repeat(far.reshape(-1), 3 ** order)
+                if nfull:
+                    Mfar = Pfull[far_flat]
+                    rk = int(np.linalg.matrix_rank(Mfar, tol=1e-8)) if Mfar.size else 0
+                    expect = nfull - rk
+                    inside = 0.0
+                    if nb:
+                        Pc_, _ = span_proj(b)
+                        inside = float(np.abs(Pc_ - Pfull @ (Pfull.T @ Pc_)).max())
+                    if nb != expect or inside > 1e-8:
+                        ctx.fail("oracle", f"C07/oracle/exact-space/order{order}", f"{sc['name']} order {order} cutoff {cut:.4f}: {nb} basis vectors, but the no-cutoff space restricted to vanish outside the range has dimension {expect} (distance of the basis from the no-cutoff space {inside:.1e})", replay=rep, has_input=True)
                 if nb < prev_n:
                     ctx.fail("oracle", f"C07/oracle/monotone/order{order}", f"{sc['name']} order {order}: enlarging the cutoff to {cut:.4f} shrinks the basis from {prev_n} to {nb}", replay=rep, has_input=True)
                 prev_n = nb
